@@ -359,6 +359,21 @@ class Check(object):
         if bad:
             ok = False
             failed.append({"file": "hygiene", "line": 0, "error": "; ".join(bad)})
+        if ok and self.tier == "thorough" and os.environ.get("VERIF_COQCHK", "1") == "1":
+            # independent re-check of the compiled property file and everything it depends on
+            t1 = time.time()
+            p = subprocess.run(["timeout", "1500", "coqchk", "-silent", "-o", "-Q", ".", "PySMT", "PySMT.props.%s" % self.prop],
+                               cwd=COQ, stdout=subprocess.PIPE, stderr=subprocess.STDOUT, text=True)
+            with open(os.path.join(self.dir, "coqchk.log"), "w") as f:
+                f.write(p.stdout)
+            self.cov["coqchk"] = {"exit": p.returncode, "wall_s": round(time.time() - t1, 1),
+                                  "axioms": sorted(set(re.findall(r'^\s*([A-Za-z_][\w.]*)\s*$', p.stdout.split("* Axioms:")[-1], re.M)))[:40]
+                                  if "* Axioms:" in p.stdout else []}
+            if p.returncode == 124:
+                self.cov["coqchk"]["note"] = "timed out after 1500 s; not counted"
+            elif p.returncode != 0:
+                ok = False
+                failed.append({"file": "coqchk", "line": 0, "error": p.stdout[-600:]})
         if ok:
             self.cov["discharged"] = len(obl)
         else:
